@@ -3,7 +3,7 @@ from __future__ import annotations
 
 import copy
 import enum
-from typing import Any, Callable, Dict, Iterable, List, Optional, Tuple
+from typing import Any, Callable, Dict, Iterable, List, Optional, Set, Tuple
 
 from lib.unions import alternatives, object_variants
 from oracle.metamodel import MetaModel
@@ -105,6 +105,7 @@ def root_inputs(mm: MetaModel, d: Decl, cap: int = 60) -> List[Any]:
     out = object_variants(mm, t)
     # every alternative of every union-typed property at depth 1, on the maximal witness too
     base = mm.witness(t, True)
+    list_variants: List[Any] = []
     for p in d.props:
         alts = alternatives(mm, p["type"])
         if len(alts) > 1:
@@ -118,7 +119,30 @@ def root_inputs(mm: MetaModel, d: Decl, cap: int = 60) -> List[Any]:
                     except Exception:
                         continue
                     out.append(v)
+                # a list alternative: its elements in every variant of their own (each optional, each nested alternative), alone and
+                # after a minimal element - a hook that classifies the list looks at properties one level further down
+                ra = mm.resolve_alias(alt)
+                if ra["kind"] == "array":
+                    el = mm.resolve_alias(ra["element"])
+                    if el["kind"] == "literal" or (el["kind"] == "reference" and el["name"] in mm.structures):
+                        try:
+                            allv = object_variants(mm, el)
+                        except Exception:
+                            allv = []
+                        if allv:
+                            # the variants that differ from the minimal element in a union-typed property first (what list hooks discriminate on)
+                            eprops = mm.flatten(el["name"]) if el["kind"] == "reference" else mm.literal_props(el)
+                            unionp = {q["name"] for q in eprops if len(alternatives(mm, q["type"])) > 1}
+                            nested = [v_ for v_ in allv[2:] if any(v_.get(n_) != allv[0].get(n_) for n_ in unionp)]
+                            evs = [allv[0]] + nested[:8] + [v_ for v_ in allv[1:] if v_ not in nested][:4]
+                            for ev in evs:
+                                for lst in ([ev], [evs[0], ev]):
+                                    v = dict(base)
+                                    v[p["name"]] = lst
+                                    list_variants.append(v)
     out.extend(odd_payload_variants(mm, d, base))
+    # list alternatives with varied elements go in front of the optional-by-optional variants (the cap below cuts from the end)
+    out = out[:6] + list_variants + out[6:]
     seen = set()
     uniq = []
     import json
@@ -158,6 +182,33 @@ def root_inputs(mm: MetaModel, d: Decl, cap: int = 60) -> List[Any]:
 # ---------------------------------------------------------------------------------------------
 
 
+def _static_names(mm: MetaModel, t: Dict, depth: int = 0) -> Set[str]:
+    """Every property name declared by any structure / literal alternative of t."""
+    if depth > 8:
+        return set()
+    k = t["kind"]
+    if k == "reference":
+        n = t["name"]
+        if n in mm.structures:
+            return {p["name"] for p in mm.flatten(n)}
+        if n in mm.aliases and n not in ("LSPAny", "LSPObject", "LSPArray"):
+            return _static_names(mm, mm.aliases[n]["type"], depth + 1)
+        return set()
+    if k == "literal":
+        return {p["name"] for p in t["value"]["properties"]}
+    if k == "and":
+        return {p["name"] for p in mm.and_props(t)}
+    if k == "or":
+        out: Set[str] = set()
+        for it in t["items"]:
+            out |= _static_names(mm, it, depth + 1)
+        return out
+    return set()
+
+
+_FORBID: List[Set[str]] = [set()]  # names declared by a sibling alternative of the union the current node sits in: not "undeclared" there
+
+
 def inject_extras(mm: MetaModel, t: Dict, j: Any, depth: int = 0) -> Any:
     """Add an undeclared key to every object node that stands for a structure / literal (not inside LSPAny/LSPObject/maps)."""
     if depth > 12:
@@ -187,7 +238,11 @@ def inject_extras(mm: MetaModel, t: Dict, j: Any, depth: int = 0) -> Any:
         if not cands:
             return j
         best = max(cands, key=lambda it: mm._declared_count(it, j))
-        return inject_extras(mm, best, j, depth + 1)
+        _FORBID.append(_FORBID[-1] | _static_names(mm, t))
+        try:
+            return inject_extras(mm, best, j, depth + 1)
+        finally:
+            _FORBID.pop()
     return j
 
 
@@ -227,9 +282,108 @@ def _inject_props(mm: MetaModel, props: List[Dict], j: Any, depth: int) -> Any:
                     # a value that cannot stand for the declared property: if the twin is mistaken for it, the result changes or fails
                     out[tw] = junk if not isinstance(j.get(p["name"]), dict) else "junk"
         return out
+    if EXTRAS_STYLE in ("neighbours-up", "neighbours-down"):
+        # undeclared keys that are declared one level away: a child's property names on the parent, the parent's on the child
+        declared = set(bytype)
+        junk = {"verif": ["junk", 1, None]}
+        for p in props:
+            child = out.get(p["name"])
+            if not isinstance(child, dict):
+                continue
+            cnames = _declared_names(mm, p["type"], j[p["name"]])
+            if cnames is None:
+                continue
+            if EXTRAS_STYLE == "neighbours-up":
+                for nm in sorted((cnames | _static_names(mm, p["type"])) - declared - _FORBID[-1]):
+                    out.setdefault(nm, junk)
+            else:
+                child = dict(child)
+                for nm in sorted(declared - cnames - _static_names(mm, p["type"])):
+                    child.setdefault(nm, "junk")
+                out[p["name"]] = child
+        return out
+    if EXTRAS_STYLE == "fragments":
+        # undeclared keys that are PIECES of the property names the hand-written hooks test for (a substring test instead of a key test
+        # mistakes them for the property), and the empty key; names that are a property of anything in the model are left out
+        every = _all_property_names(mm)
+        for lit in _hook_key_literals(mm):
+            for frag in (lit[:3], lit[-2:], lit[:1], lit[1:-1], lit + "s"):
+                if frag not in every and frag not in out and len(out) < len(j) + 60:
+                    out[frag] = {"verif": "junk"}
+        out.setdefault("", None)
+        return out
     out[EXTRA_KEY] = {"nested": [1, None, {"x": "y"}]}
     out[EXTRA_KEY + "2"] = None
     return out
+
+
+def _declared_names(mm: MetaModel, t: Dict, v: Any, depth: int = 0) -> Optional[Set[str]]:
+    """Property names declared by the structure / literal alternative of t that v is an instance of (None: not a declared object)."""
+    if depth > 8 or not isinstance(v, dict):
+        return None
+    k = t["kind"]
+    if k == "reference":
+        n = t["name"]
+        if n in mm.structures:
+            return {p["name"] for p in mm.flatten(n)}
+        if n in mm.aliases and n not in ("LSPAny", "LSPObject", "LSPArray"):
+            return _declared_names(mm, mm.aliases[n]["type"], v, depth + 1)
+        return None
+    if k == "literal":
+        return {p["name"] for p in t["value"]["properties"]} or None
+    if k == "and":
+        return {p["name"] for p in mm.and_props(t)}
+    if k == "or":
+        cands = [it for it in t["items"] if mm.valid(it, v, True)]
+        if not cands:
+            return None
+        return _declared_names(mm, max(cands, key=lambda it: mm._declared_count(it, v)), v, depth + 1)
+    return None
+
+
+_PROP_NAMES: Dict[int, Set[str]] = {}
+_HOOK_LITS: Dict[int, List[str]] = {}
+
+
+def _all_property_names(mm: MetaModel) -> Set[str]:
+    if id(mm) not in _PROP_NAMES:
+        names: Set[str] = set()
+        for sname in mm.structures:
+            names |= {p["name"] for p in mm.flatten(sname)}
+
+        def walk(t):
+            if isinstance(t, dict):
+                if t.get("kind") == "literal":
+                    names.update(p["name"] for p in t["value"]["properties"])
+                for v in t.values():
+                    walk(v)
+            elif isinstance(t, list):
+                for v in t:
+                    walk(v)
+
+        walk(mm.doc if hasattr(mm, "doc") else {})
+        _PROP_NAMES[id(mm)] = names
+    return _PROP_NAMES[id(mm)]
+
+
+def _hook_key_literals(mm: MetaModel) -> List[str]:
+    """String constants of the hand-written hooks that are property names of the metamodel (the keys the hooks discriminate on)."""
+    if id(mm) not in _HOOK_LITS:
+        import ast
+        import os
+
+        repo = os.environ.get("VERIF_REPO", "/repo")
+        lits: List[str] = []
+        try:
+            tree = ast.parse(open(os.path.join(repo, "packages", "python", "lsprotocol", "_hooks.py"), encoding="utf-8").read())
+            every = _all_property_names(mm)
+            for node in ast.walk(tree):
+                if isinstance(node, ast.Constant) and isinstance(node.value, str) and node.value in every and node.value not in lits:
+                    lits.append(node.value)
+        except (OSError, SyntaxError):
+            pass
+        _HOOK_LITS[id(mm)] = sorted(lits)
+    return _HOOK_LITS[id(mm)]
 
 
 # ---------------------------------------------------------------------------------------------
